@@ -435,6 +435,25 @@ def check_relations(case, ctx):
                             f'constant image {c}: background in '
                             f'[{bk[sel].min()!r},{bk[sel].max()!r}], rms max '
                             f'{rm[sel].max()!r}', accel=ACCEL)
+        # the same in single precision (values that do not sum exactly):
+        # within float32 precision, with or without the accelerator
+        c32 = np.float32(case.get('const32', 1000.1))
+        try:
+            b32 = _bkg(np.full(d.shape, c32, dtype='f4'), kwargs(case, mask, cov))
+        except ValueError:
+            return
+        bk, rm, _, _ = _maps(b32)
+        ulp = float(np.spacing(np.abs(c32)))
+        ctx.event('constant_float32')
+        # (float32 pairwise summation: observed up to 8 ulp on the unchanged
+        # tree; naive single-precision accumulation is off by 100s of ulp)
+        if not (np.all(np.abs(bk[sel] - float(c32)) <= 32 * ulp)
+                and np.all(np.abs(rm[sel]) <= 32 * ulp)):
+            raise Violation('constant_image',
+                            f'constant float32 image {float(c32)!r}: background '
+                            f'in [{bk[sel].min()!r},{bk[sel].max()!r}], rms max '
+                            f'{rm[sel].max()!r} (float32 ulp {ulp:.3g})',
+                            accel=ACCEL)
     elif rel in ('shift', 'scale'):
         finite = np.isfinite(d)
         if rel == 'shift':
@@ -488,6 +507,7 @@ def relation_cases(draw):
         case['mask_density'] = 0.2
     case['gseed'] = draw(st.integers(0, 10**6))
     case['const'] = draw(st.sampled_from([3.0, -17.5, 1024.0, 0.125]))
+    case['const32'] = draw(st.sampled_from([1000.1, 20003.7, -0.3, 7.1e-3]))
     case['factor'] = draw(st.sampled_from([2.0, 0.5, 8.0, 0.03125, 2.0 ** -60,
                                            2.0 ** 40]))
     if case['relation'] in ('shift', 'scale', 'constant'):
